@@ -7,6 +7,7 @@ import (
 	"math"
 	"math/rand"
 	"reflect"
+	"strings"
 	"sync"
 	"time"
 
@@ -192,6 +193,9 @@ var c19Responses = []struct{ kind, payload string }{
 	// lead bytes). None of these is a pre-response: each is the response (a parse error)
 	{"first-byte-at", `@{"result":1}`}, {"first-byte-bracket", `[{"result":1}]`}, {"first-byte-backtick", "`x"}, {"first-byte-underscore", `_timeout:"100"`},
 	{"first-byte-space", ` {"result":{"a":2}}`}, {"first-byte-bom", "\xef\xbb\xbf" + `{"result":{"a":3}}`}, {"first-byte-e9", "\xe9t\xe9"}, {"first-byte-b5", "\xb5s"},
+	// a complete response followed by more bytes is not a response: the parse error is returned
+	{"trailing-brace", `{"result":{"foo":42}}}`}, {"trailing-text", `{"result":null} garbage`}, {"trailing-second-object", `{"result":1}{"result":2}`}, {"trailing-bracket", `{"resource":{"rid":"svc.x"}}]`},
+	{"trailing-after-error", `{"error":{"code":"custom.err","message":"Custom"}},`},
 	{"first-byte-aa", "\xaa"}, {"first-byte-c0", "\xc0x"}, {"first-byte-ff", "\xff\xfe"}, {"first-byte-utf8", "\u00e9timeout:\"100\""}, {"first-byte-d7", "\xd7"}, {"first-byte-80", "\x80abc"},
 }
 
@@ -362,6 +366,12 @@ func c19One(c *core.Ctx, cs c19Case, sample bool) {
 		}
 	} else {
 		want := resprot.ParseResponse([]byte(cs.Msgs[wantIdx].Payload))
+		if strings.HasPrefix(cs.Msgs[wantIdx].Kind, "response-trailing") && (resp.Error == nil || resp.Error.Code != res.CodeInternalError) {
+			// decided without the client's own parser: text after the JSON value makes the payload invalid
+			desc["got"] = jsonStr(resp)
+			c.Violation("C19/wrong-response:trailing-bytes-accepted", fmt.Sprintf("the reply %q is not valid JSON (bytes follow the value); SendRequest returned %s instead of system.internalError", cs.Msgs[wantIdx].Payload, jsonStr(resp)), desc)
+			return
+		}
 		if resp.Error != nil && resp.Error.Code == res.CodeTimeout && (want.Error == nil || want.Error.Code != res.CodeTimeout) {
 			c.Violation("C19/spurious-timeout", fmt.Sprintf("a response arrives at %v, before the current deadline, but SendRequest returned a timeout", wantWhen), desc)
 			return
